@@ -636,3 +636,76 @@ package resolve
 //@   ensures {stack.restored} len(r.path) == old(len(r.path))
 //@   modifies *
 //@   trusted bookkeeping for the unreached-field authorization walk; does not touch the path stack
+
+// ----------------------------------------------------------------------------------------------
+// C12: subscription delivery — no write after completion, completed closed once, exclusive writes,
+// event serialisation. Concurrency is handled by lock/flag typestate only (DESIGN §2.7):
+//   * every use of subscriptionState.writer happens while writeMu is held and after removed was
+//     observed false within the same critical section;
+//   * removed is monotone (false -> true); close(completed) needs the permission created by the
+//     winning CompareAndSwap(false,true) and happens under writeMu;
+//   * subscriptionUpdater.done is read and written only under subscriptionUpdater.mu.
+//@ decl guarded subscriptionState.writer by writeMu when !removed
+//@ decl monotone subscriptionState.removed
+//@ decl ghostfield subscriptionState.closePerm bool
+//@ decl guarded subscriptionUpdater.done by mu
+//@ decl stable subscriptionUpdater.resolver by Resolver.addSubscription
+//@ decl stable subscriptionUpdater.triggerID by Resolver.addSubscription
+//@ decl stable subscriptionState.completed by Resolver.addSubscription
+//@ decl stable subscriptionState.writer by Resolver.addSubscription
+
+//@ func SubscriptionResponseWriter.Write
+//@   modifies global(ext)
+//@   emits wrote
+//@   trusted interface method (client connection)
+//@ func SubscriptionResponseWriter.Flush
+//@   modifies global(ext)
+//@   emits wrote
+//@   trusted interface method (client connection)
+//@ func SubscriptionResponseWriter.Complete
+//@   modifies global(ext)
+//@   emits wrote
+//@   trusted interface method (client connection)
+//@ func SubscriptionResponseWriter.Error
+//@   modifies global(ext)
+//@   emits wrote
+//@   trusted interface method (client connection)
+//@ func SubscriptionResponseWriter.Heartbeat
+//@   modifies global(ext)
+//@   emits wrote
+//@   trusted interface method (client connection)
+//@ func AsyncErrorWriter.WriteError
+//@   modifies global(ext)
+//@   emits wrote
+//@   trusted interface method (writes a formatted error to the given writer)
+
+//@ func subscriptionState.complete
+//@   requires s != nil && !held(s.writeMu)
+//@   modifies *, count(wrote)
+//@   safety nil
+
+//@ func subscriptionState.error
+//@   requires s != nil && !held(s.writeMu)
+//@   modifies *, count(wrote)
+//@   safety nil
+
+//@ func subscriptionState.writeError
+//@   requires s != nil && !held(s.writeMu)
+//@   modifies *, count(wrote)
+//@   safety nil
+
+//@ func subscriptionState.sendHeartbeat
+//@   requires s != nil && !held(s.writeMu)
+//@   modifies *, count(wrote)
+//@   safety nil
+
+// done: the one place completed is closed; needs the close permission and consumes it
+//@ func subscriptionState.done
+//@   requires s != nil && !held(s.writeMu) && s.closePerm
+//@   at call close: assert {close.under.writeMu} held(s.writeMu)
+//@   at call close: assert {close.with.permission} s.closePerm
+//@   at call close: ghost s.closePerm = false
+//@   ensures !s.closePerm
+//@   ensures {nothing.written} count(wrote) == old(count(wrote))
+//@   modifies s.closePerm
+//@   safety nil
